@@ -218,14 +218,20 @@ def execute(engine, cs: ChoiceSource, tier: str, run_index: int) -> RunResult:
 
     import numpy as _np
 
+    import warnings as _warnings
+
     _np.random.seed(0)
     _pyrandom.seed(0)
+    err0 = _np.seterr(divide="warn", over="warn", under="ignore", invalid="warn")  # numpy's defaults
+    filters0 = list(_warnings.filters)
     with _LibraryState() as st:
         _PRISTINE["snap"] = st.saved
         try:
             return engine.run(cs, tier, run_index)
         finally:
             _PRISTINE["snap"] = None
+            _np.seterr(**err0)
+            _warnings.filters[:] = filters0
 
 
 def unknown_violations(violations, prop):
